@@ -68,8 +68,12 @@ inductive Trans (c : Cfg) (s : State) (t : Tid) : State → Prop
   | cAppend : (s.loc t).pc = .cAppend →
       Trans c s t ({ s with versions := s.versions ++ [((s.loc t).vid, (s.loc t).snap)] }.setLoc t
                     { s.loc t with pc := .cPrune })
-  | cPrune : (s.loc t).pc = .cPrune →
+  | cPrune : (s.loc t).pc = .cPrune → c.pruneFails t = false →
       Trans c s t (s.setLoc t { s.loc t with pc := .cNodes })
+  | cPruneFail : (s.loc t).pc = .cPrune → c.pruneFails t = true →
+      Trans c s t (s.setLoc t { s.loc t with pc := .cUndo })
+  | cUndo : (s.loc t).pc = .cUndo →
+      Trans c s t ({ s with versions := s.versions.dropLast }.setLoc t { s.loc t with pc := .eTxnNone })
   | cNodes : (s.loc t).pc = .cNodes →
       Trans c s t ({ s with nodes := (s.loc t).snap, committed := s.committed ++ [t] }.setLoc t
                     { s.loc t with pc := .eTxnNone })
@@ -153,7 +157,11 @@ theorem step_trans {c : Cfg} {s s' : State} {t : Tid} (hs : step c s t = some s'
     · simp only [Option.some.injEq] at hs; subst hs; exact .cAcq hpc (by assumption)
     · contradiction
   case cAppend => simp only [Option.some.injEq] at hs; subst hs; exact .cAppend hpc
-  case cPrune => simp only [Option.some.injEq] at hs; subst hs; exact .cPrune hpc
+  case cPrune =>
+    split at hs <;> simp only [Option.some.injEq] at hs <;> subst hs
+    · exact .cPruneFail hpc (by assumption)
+    · rename_i h; exact .cPrune hpc (by simpa using h)
+  case cUndo => simp only [Option.some.injEq] at hs; subst hs; exact .cUndo hpc
   case cNodes => simp only [Option.some.injEq] at hs; subst hs; exact .cNodes hpc
   case rAcq =>
     split at hs
